@@ -1,21 +1,27 @@
 import os
 import common
 
+GEN = os.path.join(common.LEAN, "GPy", "C19", "Generated.lean")
+
 CONFIG = {
     "rule": "case = one module graph: Go-implemented modules g0/g1 (py.RegisterModule), source files in two sys.path directories, 1-3 scripts run in ONE fresh context; "
             "every body logs its namespace (module objects numbered by identity, '='/'!' = is/is not the store's object) at start and end; "
             "families: A = statement form x statement form x __all__ variant x back edge (exhaustive), B1-B3 = every import graph (self-imports included) x every order of first import, "
+            "D = relative imports (before/after the target is loaded; files, Go modules, missing names; in scripts and bodies), `a as b, b as c` chains in one from-import (importer = the module itself / a module of a cycle / the script), dotted names (known finding C19-K01), E = seeded random bodies over the pool of C extended by those forms; "
             "B4 = every graph over 4 modules (quick: half of the 4096 graphs per seed parity with one seeded order, thorough: all 4096 with six seeded orders), B5 = seeded graphs over 5 modules (quick 300, thorough 25000), C = seeded random bodies (missing modules, files that do not compile, shadowed directory, import __main__); "
             "non-trivial = at least one import was answered from the store or at least one module body failed; distinct = distinct input lines",
     "trusted_base": [
         "Lean 4.33.0 kernel; axioms allowed: propext, Classical.choice, Quot.sound (audited per theorem on every run)",
         "lean/GPy/C19/Spec.lean: my transcription of Python's import semantics (sys.modules first, built-in finder before path finder, module cached before its code runs and un-cached when the code raises, IMPORT_FROM/IMPORT_STAR binding rules) and the trace predicates ranCount/failedCount/starSpecNames",
-        "lean/GPy/C19/Model.lean: hand transliteration of py/import.go ImportModuleLevelObject, py/module.go NewModule/GetModule, stdlib/stdlib.go ModuleInit/ResolveAndCompile, py/run.go RunFile/RunCode, vm/eval.go IMPORT_NAME/IMPORT_FROM/IMPORT_STAR; tied to the repo by the correspondence run only",
+        "lean/GPy/C19/Model.lean: hand transliteration of py/import.go ImportModuleLevelObject, py/module.go NewModule/GetModule, stdlib/stdlib.go ModuleInit/ResolveAndCompile, py/run.go RunFile/RunCode, vm/eval.go IMPORT_NAME/IMPORT_FROM/IMPORT_STAR; tied to the repo by the correspondence run, and for the ORDER of the store effects (register / run code / un-register on failure) by the regenerated fact below",
+        "verif/extract/importorder (go/ast): regenerates lean/GPy/C19/Generated.lean (effects on the module store in source order, calls inlined) from py/module.go NewModule, stdlib/stdlib.go ModuleInit, py/run.go RunCode, py/import.go ImportModuleLevelObject on every run; fails loudly on unknown shapes (registration inside a conditional, removeModule outside an err != nil branch, store lookup not first); theorem generated_order_is_canonical is the obligation that the order is register, runCode, unregister",
+        "Spec.lean is now related to Model.lean by theorem (model_refines_spec_partial, model_observable_eq_spec_partial): a disagreement model/spec outside C19-K01 can no longer occur; the spec itself stays trusted as the statement of Python's semantics",
         "os.Stat/os.ReadFile find exactly the files the harness wrote; Go map iteration visits every key once (order arbitrary: a model parameter, theorems quantify over it)",
         "harness/c19.go (file layout, ev/ex builtins, canonical rendering re-implemented in Go) and checks/common.py",
     ],
     "assumptions": [
-        "undotted module names only (gpython has no packages/relative imports); no .pyc files; sys.path holds absolute directories",
+        "no packages (every module is a plain file or a Go module); dotted names are generated only as failing imports (no file p/q.py exists) and are known finding C19-K01; relative imports raise SystemError (3.4 semantics for a module outside a package); no .pyc files; sys.path holds absolute directories; gpython's sys module has no `modules` attribute, so a module cannot delete itself from the store",
+        "the Go-map iteration order env.ord keeps the key set (every theorem that mentions it assumes exactly that)",
         "module namespaces hold ints, module references, __all__ lists of strings and Go methods; attribute lookup on a module is lookup in its globals (type attributes such as __class__ are not generated)",
         "statements at module level only (locals = globals); import inside functions is not generated",
     ],
@@ -25,6 +31,25 @@ CONFIG = {
     "case_timeout": 240.0,
     "group": lambda r: r["input"].split(" ")[0],
 }
+
+
+def pre(run):
+    """regenerate GPy/C19/Generated.lean (order of the store effects) from the tree under verification"""
+    os.makedirs(common.WORK, exist_ok=True)
+    exe = os.path.join(common.WORK, "importorder")
+    rc, out = common.sh(["go", "build", "-o", exe, "."], cwd=os.path.join(common.ROOT, "extract", "importorder"), env=common.GOENV, timeout=600)
+    if rc != 0:
+        run.violation({"kind": "extractor", "broken": "extract/importorder does not build: " + out[-400:]}, nofail=True)
+        return
+    before = open(GEN).read() if os.path.exists(GEN) else ""
+    with common.LakeLock():
+        rc, out = common.sh([exe, "-repo", common.REPO, "-out", GEN], timeout=120)
+    run.cov["extractor"] = {"cmd": "extract/importorder -repo $VERIF_REPO -out lean/GPy/C19/Generated.lean", "rc": rc, "output": out.strip()[-400:]}
+    if rc != 0:
+        run.violation({"kind": "extractor", "broken": "extract/importorder: " + out.strip()[-600:],
+                       "note": "NewModule / ModuleInit / RunCode / ImportModuleLevelObject no longer have the shape the order of effects is read from; the theorems are about a stale order"}, nofail=True)
+        return
+    run.cov["generated_changed_this_run"] = before != open(GEN).read()
 
 
 def extra(run):
